@@ -15,7 +15,7 @@ META = dict(
                 "labels (root:(degrees)/bass) and replayed through the unstubbed functions.",
     bounds="values: all encodings satisfying the invariant (about 12*2^11*12+2 per label), three labels per call (reference, two estimates); "
            "mirex: 6 symbolic bitmap positions per encoding per job, windows swept over the 12 semitones (np.nonzero forks per bit)",
-    stubs=["chord.validate (no-op) and chord.encode_many (returns any triple satisfying Inv: root in 0..11, bits in {0,1}, bit0=1, "
+    stubs=["chord.validate (no-op) and chord.encode_many (returns any triple satisfying Inv: root in 0..11, bits in {0,1}, "
            "bitmap[bass]=1; N=(-1,0^12,-1); X=(-1,(-1)^12,-1)); Inv itself is an obligation of C10 on the real encode"],
     assumptions=["every Inv-satisfying encoding is produced by a real label (constructive: the replay builds that label)"],
 )
@@ -62,9 +62,9 @@ def sym_encoding(ctx, name, fixed_bits=None):
     c.assume(kind >= 0)
     c.assume(kind <= 2)
     reg = kind == 0
-    inv = [root >= 0, root <= 11, bass >= 0, bass <= 11, bits[0] == 1]
+    inv = [root >= 0, root <= 11, bass >= 0, bass <= 11]      # the root's own bit may be 0 (omission '*1')
     for i in range(12):
-        if fixed_bits is not None and i in fixed_bits and i != 0:
+        if fixed_bits is not None and i in fixed_bits:
             inv.append(bits[i] == fixed_bits[i])
         else:
             inv.append(S._lor(bits[i] == 0, bits[i] == 1))
@@ -97,8 +97,12 @@ def label_of(enc):
     if k == 2:
         return 'X'
     degs = [DEGS[i] for i in range(1, 12) if int(enc['bits'][i]) == 1]
-    lab = ROOTS[int(enc['root'])] + ':(' + ','.join(['1'] + degs) + ')'
     b = int(enc['bass'])
+    if int(enc['bits'][0]) == 1:
+        lab = ROOTS[int(enc['root'])] + ':(' + ','.join(['1'] + degs) + ')'
+    else:
+        # root omitted: needs a quality shorthand ('1' = root only) and the omission '*1'
+        lab = ROOTS[int(enc['root'])] + ':1(' + ','.join(['*1'] + degs) + ')'
     if b != 0:
         lab += '/' + DEGS[b]
     return lab
@@ -133,7 +137,7 @@ def job_lattice(with_mirex=False, window=None):
     fixed = None
     if with_mirex:
         # positions outside the window get a concrete pattern (major triad tones set when outside the window)
-        fixed = {i: (1 if i in (4, 7) else 0) for i in range(12) if i not in window}
+        fixed = {i: (1 if i in (0, 4, 7) else 0) for i in range(12) if i not in window}
 
     def build(ctx):
         fixed2 = None
@@ -195,7 +199,7 @@ def job_lattice(with_mirex=False, window=None):
 def job_real_labels():
     """ties the stubbed lattice to the real encoder on a concrete pool of labels (all shorthands, with/without bass, N, X):
     every real encoding satisfies Inv, and label_of(encode(l)) encodes back to the same triple."""
-    pool = ['N', 'X'] + ['%s:%s' % (rt, q) for rt in ('C', 'F#', 'Bb') for q in CH.QUALITIES if q and q[0] not in 'b#'] + ['G', 'A:min/b3', 'D:maj/5', 'E:7/b7',
+    pool = ['N', 'X', 'C:maj(*1)', 'D:min7(*1)/b3'] + ['%s:%s' % (rt, q) for rt in ('C', 'F#', 'Bb') for q in CH.QUALITIES if q and q[0] not in 'b#'] + ['G', 'A:min/b3', 'D:maj/5', 'E:7/b7',
                                                                                                         'C:maj(9)', 'C:(1,5)', 'Db:sus4(b7)/4']
 
     def build(ctx):
@@ -212,7 +216,7 @@ def job_real_labels():
             elif l == 'X':
                 ok = ok and (root, bm, bass) == (-1, [-1] * 12, -1)
             else:
-                ok = ok and 0 <= root <= 11 and 0 <= bass <= 11 and bm[0] == 1 and bm[bass] == 1 and set(bm) <= {0, 1}
+                ok = ok and 0 <= root <= 11 and 0 <= bass <= 11 and bm[bass] == 1 and set(bm) <= {0, 1}
                 enc = dict(kind=0, root=root, bits=bm, bass=bass)
                 r2, bm2, b2 = CH.encode(label_of(enc))
                 rt = rt and (r2, [int(x) for x in bm2], b2) == (root, bm, bass)
